@@ -117,32 +117,39 @@ GetField(sch, pn, name) == sch[pn][CHOOSE i \in 1..Len(sch[pn]) : sch[pn][i].n =
 (*   [k |-> "sys"]     a System value / computed result (not an element)   *)
 (*   [k |-> "bad"]     a name that is no element of any focus item         *)
 
-NavR(k, a) == [k |-> k, a |-> a]
+(* het: some step named an element that exists for some focus items only  *)
+(* (a heterogeneous focus, e.g. Bundle entries): DESIGN.md 7.1 leaves the  *)
+(* outcome open, so a must-succeed verdict is weakened to "either".        *)
+NavH(k, a, het) == [k |-> k, a |-> a, het |-> het]
+NavR(k, a) == NavH(k, a, FALSE)
 
 HasUrl(node, url) == \E i \in 1..Len(node.ch) : node.ch[i].n = "url" /\ ValStr(node.ch[i].v) = url
 
 StepNav(t, sch, cur, st) ==
   IF cur.k # "nodes" THEN cur
-  ELSE LET f == cur.a IN
-    CASE st.k = "root"  -> NavR("nodes", SelectSeq(f, LAMBDA a : NodeAt(t, a).ty = st.s))
+  ELSE LET f == cur.a
+           NR(k, a) == NavH(k, a, cur.het)
+       IN
+    CASE st.k = "root"  -> NR("nodes", SelectSeq(f, LAMBDA a : NodeAt(t, a).ty = st.s))
       [] st.k = "field" ->
            IF Len(f) = 0 THEN cur
-           ELSE IF st.s = "value" /\ \A j \in 1..Len(f) : NodeAt(t, f[j]).k = "prim" THEN NavR("sys", <<>>)
-           ELSE IF \A j \in 1..Len(f) : ~FieldOk(sch, NodeAt(t, f[j]).pn, st.s) THEN NavR("bad", <<>>)
-           ELSE NavR("nodes", Flat([j \in 1..Len(f) |-> Kids(t, f[j], st.s)]))
-      [] st.k = "index" -> IF st.i >= 0 /\ st.i < Len(f) THEN NavR("nodes", <<f[st.i + 1]>>) ELSE NavR("nodes", <<>>)
-      [] st.k = "first" -> IF Len(f) > 0 THEN NavR("nodes", <<f[1]>>) ELSE cur
-      [] st.k = "last"  -> IF Len(f) > 0 THEN NavR("nodes", <<f[Len(f)]>>) ELSE cur
+           ELSE IF st.s = "value" /\ \A j \in 1..Len(f) : NodeAt(t, f[j]).k = "prim" THEN NR("sys", <<>>)
+           ELSE IF \A j \in 1..Len(f) : ~FieldOk(sch, NodeAt(t, f[j]).pn, st.s) THEN NR("bad", <<>>)
+           ELSE NavH("nodes", Flat([j \in 1..Len(f) |-> Kids(t, f[j], st.s)]),
+                     cur.het \/ \E j \in 1..Len(f) : ~FieldOk(sch, NodeAt(t, f[j]).pn, st.s))
+      [] st.k = "index" -> IF st.i >= 0 /\ st.i < Len(f) THEN NR("nodes", <<f[st.i + 1]>>) ELSE NR("nodes", <<>>)
+      [] st.k = "first" -> IF Len(f) > 0 THEN NR("nodes", <<f[1]>>) ELSE cur
+      [] st.k = "last"  -> IF Len(f) > 0 THEN NR("nodes", <<f[Len(f)]>>) ELSE cur
       [] st.k = "where" ->
-           NavR("nodes", SelectSeq(f, LAMBDA a :
+           NR("nodes", SelectSeq(f, LAMBDA a :
               LET ks == Kids(t, a, st.s)
               IN Len(ks) = 1 /\ LET c == NodeAt(t, ks[1]) IN c.v.t \in {"s", "sym"} /\ ValStr(c.v) = st.x))
       [] st.k = "ext"   ->
-           NavR("nodes", Flat([j \in 1..Len(f) |->
+           NR("nodes", Flat([j \in 1..Len(f) |->
               SelectSeq(Kids(t, f[j], "extension"), LAMBDA e : HasUrl(NodeAt(t, e), st.x))]))
-      [] st.k = "value" -> IF Len(f) = 0 THEN cur ELSE NavR("sys", <<>>)
-      [] st.k \in {"concat", "count"} -> NavR("sys", <<>>)
-      [] OTHER -> NavR("bad", <<>>)
+      [] st.k = "value" -> IF Len(f) = 0 THEN cur ELSE NR("sys", <<>>)
+      [] st.k \in {"concat", "count"} -> NR("sys", <<>>)
+      [] OTHER -> NR("bad", <<>>)
 
 RECURSIVE NavFrom(_, _, _, _, _)
 NavFrom(t, sch, p, j, cur) == IF j > Len(p) THEN cur ELSE NavFrom(t, sch, p, j + 1, StepNav(t, sch, cur, p[j]))
@@ -292,6 +299,12 @@ ExpAdd(t, sch, o, dn, loc) ==
                IF ~fld.list /\ Len(Positions(x.ch, o.name)) > 0 THEN Res("err", {}, "populated")
                ELSE ClassRes(t, fld, o, dn, LAMBDA vn : AddChild(t, a, vn), "ok")
 
+(* insert: the path denotes the list.  It must succeed when the path ends  *)
+(* in an element name applied to one located parent and yields that        *)
+(* parent's whole list; when the located elements are only part of one     *)
+(* list (a filter), or the list is reached through several parents or a    *)
+(* function, an implementation may refuse, or insert into that list at the *)
+(* index; elements of different lists are not a list.                      *)
 ExpInsert(t, sch, o, dn, loc) ==
   IF o.val.nil THEN Res("err", {}, "nil")
   ELSE IF Len(loc.a) = 0 THEN Res("either", {t}, "absent")
@@ -299,17 +312,27 @@ ExpInsert(t, sch, o, dn, loc) ==
   ELSE LET L  == loc.a
            pa == Front(L[1])
            nm == NodeAt(t, L[1]).n
-           whole == /\ \A j \in 1..Len(L) : Front(L[j]) = pa
-                    /\ L = Kids(t, pa, nm)
-       IN IF ~whole THEN Res("err", {}, "notalist")
+           oneList == \A j \in 1..Len(L) : Front(L[j]) = pa /\ NodeAt(t, L[j]).n = nm
+           full  == Kids(t, pa, nm)
+           whole == oneList /\ Len(L) = Len(full)
+           pf    == Nav(t, sch, Front(o.path))
+           plainList == /\ whole /\ o.path[Len(o.path)].k = "field"
+                        /\ pf.k = "nodes" /\ Len(pf.a) = 1
+       IN IF ~oneList THEN Res("err", {}, "notalist")
           ELSE LET fld == GetField(sch, NodeAt(t, pa).pn, nm) IN
                IF ~fld.list THEN Res("err", {}, "scalar")
-               ELSE IF o.index < 0 \/ o.index > Len(L) THEN Res("err", {}, "range")
+               ELSE IF o.index < 0 \/ o.index > Len(full) THEN Res("err", {}, "range")
+               ELSE IF ~whole /\ o.index > Len(L) THEN
+                    (* in range for the whole list only: refusing is as good as inserting there *)
+                    ClassRes(t, fld, o, dn, LAMBDA vn : InsertInGroup(t, pa, nm, o.index, vn), "either")
                ELSE ClassRes(t, fld, o, dn, LAMBDA vn : InsertInGroup(t, pa, nm, o.index, vn),
-                             IF o.path[Len(o.path)].k = "field" THEN "ok" ELSE "either")
+                             IF plainList THEN "ok" ELSE "either")
+
+Weaken(r, loc) == IF loc.het /\ r.must = "ok" THEN [r EXCEPT !.must = "either"] ELSE r
 
 Expect(t, sch, o, dn) ==
   LET loc == Nav(t, sch, o.path) IN
+  Weaken(
   IF o.op = "move" THEN Res("err", {}, "move")
   ELSE IF o.nilres THEN Res("err", {}, "nilres")
   ELSE IF loc.k = "bad" THEN Res("err", {}, "badpath")
@@ -318,7 +341,7 @@ Expect(t, sch, o, dn) ==
          [] o.op = "replace" -> ExpReplace(t, sch, o, dn, loc)
          [] o.op = "add"     -> ExpAdd(t, sch, o, dn, loc)
          [] o.op = "insert"  -> ExpInsert(t, sch, o, dn, loc)
-         [] OTHER            -> Res("err", {}, "unknown-op")
+         [] OTHER            -> Res("err", {}, "unknown-op"), loc)
 
 (* are all schema look-ups Expect makes defined? (a judge must be total)    *)
 SchemaCovers(t, sch, o) ==
@@ -332,7 +355,7 @@ SchemaCovers(t, sch, o) ==
 (* The reference machine: a deterministic choice inside Expect (a sibling  *)
 (* value is converted), with the mutants.  Result [k, tree, why].          *)
 
-AnyOf(S) == CHOOSE x \in S : TRUE
+AnyOf(set) == CHOOSE x \in set : TRUE
 
 Run(t, sch, o, dn) ==
   LET ex == Expect(t, sch, o, dn) IN
